@@ -1102,8 +1102,8 @@ func famSaveFailures(r *ev.Run, seed int64) *mesh {
 
 // famRestart: the follower process restarts: new syncer and empty cache on the same region storage,
 // regions loaded back from it, log index taken from the persisted value.
-func famRestart(r *ev.Run, seed int64, n int) *mesh {
-	m, err := newMesh(r, "follower-restart", seed, 2, map[string]interface{}{"variant": fmt.Sprintf("n=%d", n)})
+func famRestart(r *ev.Run, seed int64, n int, ctxFirst bool, wrap int) *mesh {
+	m, err := newMesh(r, "follower-restart", seed, 2, map[string]interface{}{"variant": fmt.Sprintf("n=%d server-context-cancelled-first=%v log-wrapped-to-persisted-index%+d", n, ctxFirst, wrap)})
 	if err != nil {
 		r.Inconclusive("mesh set-up: %v", err)
 		return nil
@@ -1118,16 +1118,31 @@ func famRestart(r *ev.Run, seed int64, n int) *mesh {
 	if !m.waitRecorded(k) || !m.checkpoint("before the restart", b) {
 		return m
 	}
-	for round := 0; round < 2; round++ {
+	rounds := 2
+	if wrap != noWrap {
+		rounds = 1
+	}
+	for round := 0; round < rounds; round++ {
+		old := b.n
+		if ctxFirst {
+			// pd-server cancels the server context before it closes the server: the sync loop sees a
+			// dead context while it has not been told to stop
+			old.cancel()
+			k = m.push(7, false)
+			m.waitRecorded(k)
+		}
 		m.stopSync(b)
+		b.sy.StopSyncWithLeader() // a second stop on the stopped syncer must be harmless
 		k = m.push(40+round*170, false)
 		if !m.waitRecorded(k) {
 			return m
 		}
 		before := b.sy.VerifHistory().NextIndex()
-		old := b.n
 		old.cancel()
 		old.rs.Close()
+		if ctxFirst {
+			old.rs.Close() // double close
+		}
 		nn, err := reopenNode(old)
 		if err != nil {
 			m.fail("reopen the follower's region storage: %v", err)
@@ -1141,6 +1156,30 @@ func famRestart(r *ev.Run, seed int64, n int) *mesh {
 		if before > flushInterval && after < before-flushInterval {
 			m.r.Violation("history-buffer:restart-next-index-regresses:follower-restart", fmt.Sprintf("follower's next index was %d, after its restart on the same region storage %d", before, after), map[string]interface{}{"mesh": m.desc})
 		}
+		if wrap != noWrap {
+			// the leader's log (capacity 10000) wraps while the follower is down: its first index ends
+			// up at the follower's persisted index + wrap
+			target := after + uint64(wrap) + leaderLogCapacity
+			cur := a.sy.VerifHistory().NextIndex()
+			if target <= cur+10 {
+				m.fail("harness: cannot place the log window (leader %d, follower persisted %d)", cur, after)
+				return m
+			}
+			k = m.push(int(target-cur)-6, false)
+			if !m.waitRecorded(k) {
+				return m
+			}
+			cur = a.sy.VerifHistory().NextIndex()
+			k = m.push(int(target-cur), true) // exact
+			if !m.waitRecorded(k) {
+				return m
+			}
+			if got := a.sy.VerifHistory().FirstIndex(); got != after+uint64(wrap) {
+				m.fail("harness: leader's first index is %d, wanted %d", got, after+uint64(wrap))
+				return m
+			}
+			m.r.Count("restart_with_leader_log_wrapped_to_persisted_index", 1)
+		}
 		m.startSync(b)
 		if !m.checkpoint(fmt.Sprintf("after restart %d", round+1), b) {
 			return m
@@ -1151,6 +1190,81 @@ func famRestart(r *ev.Run, seed int64, n int) *mesh {
 			return m
 		}
 	}
+	return m
+}
+
+const noWrap = -1000
+
+// famThreeParties: RunServer keeps broadcasting while two followers bind at once; then one follower
+// rebinds while a broadcast to the other one fails and its stream is cleaned up; then that one
+// comes back while the first stays bound.
+func famThreeParties(r *ev.Run, seed int64, rounds int) *mesh {
+	m, err := newMesh(r, "three-parties", seed, 3, map[string]interface{}{"variant": fmt.Sprintf("rounds=%d", rounds)})
+	if err != nil {
+		r.Inconclusive("mesh set-up: %v", err)
+		return nil
+	}
+	defer m.guard()
+	a, b, c := m.ms[0], m.ms[1], m.ms[2]
+	a.sy.VerifHistory().ResetWithIndex(20000)
+	m.lead(a)
+	m.populate(220, false)
+	stop := make(chan struct{})
+	var wg sync.WaitGroup
+	wg.Add(1)
+	go func() {
+		defer wg.Done()
+		for {
+			select {
+			case <-stop:
+				return
+			default:
+			}
+			m.push(2, false)
+			time.Sleep(300 * time.Microsecond)
+		}
+	}()
+	both := func(f func(x *member)) {
+		var w2 sync.WaitGroup
+		for _, x := range []*member{b, c} {
+			w2.Add(1)
+			go func(x *member) { defer w2.Done(); f(x) }(x)
+		}
+		w2.Wait()
+	}
+	both(func(x *member) { m.startSync(x) })
+	m.waitFor("both followers to be answered", func() bool { return m.answered(b) && m.answered(c) })
+	for i := 0; i < rounds && !m.isFailed(); i++ {
+		// a broadcast to B is acknowledged with an error: the leader drops B's stream, while C rebinds
+		var once int32
+		m.mu.Lock()
+		m.sendHook = func(st *mstream, ord int, msg *pdpb.SyncRegionResponse) (error, bool) {
+			if st.follower == "B" && atomic.LoadInt32(&st.recvCalls) >= 2 && len(msg.GetRegions()) > 0 && atomic.CompareAndSwapInt32(&once, 0, 1) {
+				m.r.Count("send_errors_injected", 1)
+				return errInjected, true
+			}
+			return nil, true
+		}
+		m.mu.Unlock()
+		m.stopSync(c)
+		m.startSync(c)
+		m.mu.Lock()
+		m.sendHook = nil
+		m.mu.Unlock()
+		// B comes back (its stream may have been dropped) while C binds / stays bound
+		both(func(x *member) {
+			if x == b {
+				m.stopSync(b)
+				m.startSync(b)
+			}
+		})
+		m.waitFor("both followers to be answered", func() bool { return m.answered(b) && m.answered(c) })
+		m.r.Count("three_party_rounds", 1)
+	}
+	close(stop)
+	wg.Wait()
+	m.waitRecorded(m.termPush)
+	m.checkpoint("after the three-party rounds", b, c)
 	return m
 }
 
@@ -1290,8 +1404,13 @@ func meshPhase(r *ev.Run, rng *rand.Rand) {
 			func() *mesh { return famTerms(r, s5, 150, 0) },
 			func() *mesh { return famSendErrors(r, s6) },
 			func() *mesh { return famSaveFailures(r, s7) },
-			func() *mesh { return famRestart(r, s8, 250) },
+			func() *mesh { return famRestart(r, s8, 250, false, noWrap) },
 		}
+		s9, s10, s11 := s(), s(), s()
+		jobs = append(jobs,
+			func() *mesh { return famRestart(r, s9, 60, true, noWrap) },
+			func() *mesh { return famRestart(r, s10, 60, false, 0) },
+			func() *mesh { return famThreeParties(r, s11, 1) })
 		for _, c := range [][3]int{{37, 38, 0}, {99, 101, 0}, {1, 2, 0}, {50, 50, 0}, {37, 101, 1}} {
 			c, sd := c, s()
 			jobs = append(jobs, func() *mesh { return famLeaderRestart(r, sd, c[0], c[1], c[2] == 1) })
@@ -1313,10 +1432,14 @@ func meshPhase(r *ev.Run, rng *rand.Rand) {
 				func() *mesh { return famTerms(r, sd2, 100+i*70, 2+i) },
 				func() *mesh { return famSendErrors(r, sd3) },
 				func() *mesh { return famSaveFailures(r, sd4) },
-				func() *mesh { return famRestart(r, sd5, 99+i*101) })
+				func() *mesh { return famRestart(r, sd5, 99+i*101, i%2 == 1, noWrap) })
 		}
 	}
 	if r.Thorough() {
+		for _, w := range []int{-1, 0, 1} {
+			w, sd, sd2 := w, s(), s()
+			jobs = append(jobs, func() *mesh { return famRestart(r, sd, 80, w == 1, w) }, func() *mesh { return famThreeParties(r, sd2, 2+w) })
+		}
 		for _, d := range []int{1, 37, 50, 99} {
 			for _, bsz := range []int{d - 1, d, d + 1, 101} {
 				for _, heal := range []bool{false, true} {
